@@ -511,8 +511,10 @@ class WorkerPool:
         if iterable_len is None and hasattr(iterable_of_args, '__len__'):
             iterable_len = len(iterable_of_args)
 
-        # Notify workers to keep order in mind
-        self._worker_comms.signal_keep_order()
+        # Notify workers to keep order in mind. Not when another map is still running: this call is going to be rejected, and
+        # the workers that are busy with that other call mustn't run its tasks in the order mode of this one meanwhile
+        if not self._map_running:
+            self._worker_comms.signal_keep_order()
         try:
             results = self.map_unordered(
                 func, ((args_idx, args) for args_idx, args in enumerate(iterable_of_args)), iterable_len,
@@ -646,8 +648,11 @@ class WorkerPool:
         if iterable_len is None and hasattr(iterable_of_args, '__len__'):
             iterable_len = len(iterable_of_args)
 
-        # Notify workers to keep order in mind. imap_unordered clears it again, no matter how the call ends
-        self._worker_comms.signal_keep_order()
+        # Notify workers to keep order in mind. imap_unordered clears it again, no matter how the call ends. Not when
+        # another map is still running: this call is going to be rejected, and the workers that are busy with that other call
+        # mustn't run its tasks in the order mode of this one meanwhile
+        if not self._map_running:
+            self._worker_comms.signal_keep_order()
         for result_idx, result in self.imap_unordered(func, ((args_idx, args) for args_idx, args
                                                              in enumerate(iterable_of_args)), iterable_len,
                                                       max_tasks_active, chunk_size, n_splits, worker_lifespan,
